@@ -11,7 +11,7 @@ from kq.core import const_val, is_const, proj
 from kq.report import RuleResult
 
 STATE = "kanata_keyberon::layout::State"
-OPTION = "std::option::Option"
+OPTION = "core::option::Option"
 
 
 def _single_switch(prog, fn, adt, res):
